@@ -24,6 +24,10 @@ class StreamNode(ConfigList):
         super().__init__(builder.stages, **kwargs)
         self.builder = builder
 
+    def _get_child_kwargs(self, child=None):
+        # the stream container is an implementation detail: included documents must not inherit flags from it
+        return {}
+
     @property
     def stages(self):
         return self.builder.stages
